@@ -194,7 +194,15 @@ func TestC10(t *testing.T) {
 			c10GenesisClauseFailed = true
 		}
 	})
-	runLedgerProperty(t, "C10")
+	r := lmRules["C10"]
+	st := newStats(t, "C10", r.rule+"; plus a sync clause: a peer's honest stream with ONE rule-breaking vertex (self-sealed by a stranger / by the genesis wallet / by the joining node, genesis wallet as issuer, empty; spice, data or both; on the tip or mid-DAG), enumerated, loaded by a fresh node whose resulting ledger must not hold such a vertex")
+	sim.Chdir(workDir(t))
+	t.Run("sync", func(t *testing.T) {
+		if c10Sync(st) {
+			t.Errorf("C10: rule-breaking vertex in a synced ledger")
+		}
+	})
+	t.Run("histories", func(t *testing.T) { runLedgerCases(t, st, "C10", r) })
 }
 
 var c10GenesisClauseFailed bool
